@@ -683,8 +683,11 @@ func (w *world) Invariant(e *sim.Env) {
 
 func (w *world) Idle(e *sim.Env) {}
 
+// Quiet: this world has no timers and no sleeps, so an hour of simulated time
+// without any goroutine moving while operations are outstanding is a deadlock
+// (e.g. the allocator's lock left held on an error path).
 func (w *world) Quiet(e *sim.Env) bool {
-	e.Inconclusive("quiet horizon reached with work remaining: " + strings.Join(e.RT.All(), "; "))
+	e.Violate("C17", "stuck", "the allocator is stuck: operations are outstanding but no goroutine can run (a lock left held after a failed call?): %s", strings.Join(e.RT.All(), "; "))
 	return true
 }
 
